@@ -221,7 +221,12 @@ class AsyncFIXConnection:
                     if logout_message:
                         # Only add message if logout_message != ""
                         msg[FTag.Text] = logout_message
-                    await self.send_msg(msg)
+                    try:
+                        await self.send_msg(msg)
+                    except OSError:
+                        # connection is lost already, Logout() can't be sent, but
+                        #   disconnection has to be completed
+                        self.log.debug("disconnect: Logout() was not sent")
 
                 self.log.info(
                     f"Client disconnected, with state: {repr(disconn_state)}"
@@ -372,7 +377,9 @@ class AsyncFIXConnection:
                     if (
                         self._connection_state
                         <= ConnectionState.DISCONNECTED_BROKEN_CONN
+                        or self._is_disconnecting
                     ):
+                        # disconnected or Logout() is on its way out
                         break
 
                     (decoded_msg, parsed_length, raw_msg) = self._codec.decode(
